@@ -407,6 +407,13 @@ func (fr *Frame) execInstr(in ssa.Instruction) {
 			l := &Loc{Kind: LObj, Ref: ref, Type: elem}
 			fr.storeStruct(ref, elem, tm.Zero(elem))
 			fr.env[in] = Val{T: ref, Loc: l}
+			// a struct this frame allocated stays its own until its address is handed to other code
+			if !fr.isOpaqueStruct(elem) {
+				if fr.ownBoxes == nil {
+					fr.ownBoxes = map[string]*Loc{}
+				}
+				fr.ownBoxes[ref.S] = l
+			}
 		case *types.Array:
 			// backing array: a row of the element store
 			es := tm.SortOf(u.Elem())
